@@ -3,7 +3,7 @@ from common import *
 
 CLAIMED = True
 LEVEL = 'proof'
-LEVEL_TEXT = ('Proof: 24 Coq theorems. Thin lines (12, model coq/Model/Line.v of BresenhamParameters::new / Bresenham::next / Points), '
+LEVEL_TEXT = ('Proof: 25 Coq theorems. Thin lines (12, model coq/Model/Line.v of BresenhamParameters::new / Bresenham::next / Points), '
               'for ALL lines with coordinates within +-2^28: first point = start, last = end, max(|dx|,|dy|)+1 points, each step is one '
               'pixel along the major axis and 0 or 1 along the minor axis, every point within half a pixel of the ideal line '
               '(2|cross| <= dmaj; 4 cross^2 <= dx^2+dy^2; projection inside the segment), monotone, closed form, translation, no i32 '
@@ -13,8 +13,9 @@ LEVEL_TEXT = ('Proof: 24 Coq theorems. Thin lines (12, model coq/Model/Line.v of
               'parallels (termination, pixel count bound), translation equivariance, NO PIXEL TWICE (C17_thick_no_duplicate, via disjoint '
               'cross-product bands of the parallels), distance <= 3w+2.5 (coarse). The bound w/2+2.5 of the property is refuted from width 34 on '
               '(C17_thick_distance_refuted, finding K17_wide_stroke). Distance <= w/2+2.5, <= 1 px beyond '
-              'the ends, >= w-1 wide at the middle: proved by computation in Coq for every line with |dx|,|dy| <= 14 anywhere in the plane '
-              '(= all end point pairs of the grid [-7,7]^2 and their translates) x widths 0..9 (C17_thick_grid_partial); beyond that '
+              'the ends, >= w-1 wide at the middle: proved by computation in Coq for every line with |dx|,|dy| <= 24 anywhere in the plane '
+              '(= all end point pairs of the grid [-12,12]^2 and their translates) x widths 0..16 (sweep over one quadrant + axis/diagonal lines, '
+              'lifted by the proved 90-degree rotation equivariance C17_thick_points_rot) (C17_thick_grid_partial); beyond that '
               'domain these four clauses are searched on the implementation. Both models are tied to the code by running the extracted '
               'model and the real iterators on the same inputs (pixel order included) on every run.')
 LEVEL_NOTE = ('Trusted: Coq kernel (vm_compute for the grid sweep), extraction (ExtrOcamlBasic), the OCaml/Rust drivers; the hand-written '
@@ -38,7 +39,7 @@ TRUSTED = ['modelled, not verified: Point +/-/abs as unbounded Z operations, `as
 PARTIAL = ['C17_thick_distance_partial (full statement: distance <= w/2 + 2.5 for all lines and widths < 34; proved: <= 3w + 2.5 for all; '
            'false from width 34 on: finding K17_wide_stroke)',
            'C17_thick_grid_partial (full statement: thick_ok l w -- distance <= w/2+2.5, <= 1 px beyond the ends, '
-           '>= w-1 wide at the middle (and no duplicate pixel, which C17_thick_no_duplicate proves in general) -- for ALL lines and widths < 34; proved for |dx|,|dy| <= 14, w <= 9 by computation)']
+           '>= w-1 wide at the middle (and no duplicate pixel, which C17_thick_no_duplicate proves in general) -- for ALL lines and widths < 34; proved for |dx|,|dy| <= 24, w <= 16 by computation + rotation/translation symmetry)']
 
 
 def grid_lines(R):
